@@ -576,6 +576,167 @@ pub fn strat(_t: Tier) -> BoxedStrategy<Case> {
         .boxed()
 }
 
+// ---------------------------------------------------------------------------------------------
+// part `remainder`: the server closes onto a known backlog and the transport then accepts all of
+// it but a chosen remainder - "the client writes everything queued before and then CloseOk"
+// must not depend on how many bytes happen to be left at a would-block
+
+#[derive(Clone, Debug, Serialize, Deserialize, PartialEq)]
+pub struct RCase {
+    /// body length of the one message that is queued when the server closes
+    pub body_len: u32,
+    /// index into the remainder table (powers of two and their neighbours, small values)
+    pub remainder: u8,
+    pub code: u16,
+    pub text: String,
+    pub salt: u64,
+}
+
+const REMAINDERS: [usize; 14] = [1, 11, 12, 13, 255, 256, 4096, 32768, 65535, 65536, 65537, 131072, 196608, 262144];
+
+pub fn exec_remainder(c: &RCase) -> Outcome {
+    use crate::broker::AutoBroker;
+    let mut broker = AutoBroker::new(c.salt);
+    broker.auto_grant = false;
+    let mut sess = open_session(&ClientCfg::default(), ServerCfg::default(), vec![], broker);
+    let mut conn = match sess.conn.take() {
+        Some(c) => c,
+        None => {
+            let _ = sess.broker.stop();
+            return Outcome {
+                inconclusive: Some(format!("open failed {:?}", sess.open_error)),
+                ..Default::default()
+            };
+        }
+    };
+    let wire = sess.wire.clone();
+    let ch = match conn.open_channel(Some(1)) {
+        Ok(ch) => ch,
+        Err(e) => {
+            let _ = sess.broker.stop();
+            return Outcome::fail("session-setup-failed", format!("{:?}", e));
+        }
+    };
+    // everything so far is on the wire; from now on the transport accepts nothing
+    let base = wire.out_len();
+    wire.set_budget(Some(0));
+    let body = crate::gen::body_bytes(70_000 + c.body_len as usize % 400_000, c.salt);
+    if let Err(e) = ch.basic_publish("x", Publish::new(&body, "remainder")) {
+        let _ = sess.broker.stop();
+        return Outcome::fail("publish-call-failed", format!("{:?}", e));
+    }
+    // the I/O thread has taken the publish over once it has tried to write it (a publish that is
+    // still on its way to the I/O thread when the close arrives is not "queued" yet)
+    if !wire.wait_until(Duration::from_secs(5), |st| st.held) {
+        let _ = sess.broker.stop();
+        return Outcome {
+            inconclusive: Some("the I/O thread did not try to write the publish within 5 s".into()),
+            ..Default::default()
+        };
+    }
+    // what the client has queued, byte for byte: the publish (frame_max 131072) ...
+    let mut chunks = Vec::new();
+    let mut left = body.len();
+    while left > 0 {
+        let n = left.min(131072 - 8);
+        chunks.push(n);
+        left -= n;
+    }
+    let publish_len: usize = content_frames(
+        1,
+        AMQPClass::Basic(Basic::Publish(basic::Publish {
+            ticket: 0,
+            exchange: "x".into(),
+            routing_key: "remainder".into(),
+            mandatory: false,
+            immediate: false,
+        })),
+        &amiquip::AmqpProperties::default(),
+        &body,
+        &chunks,
+    )
+    .iter()
+    .map(|f| encode(f).len())
+    .sum();
+    // ... and, once it has read the server's Close, CloseOk (12 bytes)
+    let (code, text) = (c.code, c.text.clone());
+    let t2 = text.clone();
+    let _ = sess.broker.call(move |_b, io| {
+        io.send_method(
+            0,
+            AMQPClass::Connection(Conn::Close(connection::Close {
+                reply_code: code,
+                reply_text: t2,
+                class_id: 0,
+                method_id: 0,
+            })),
+        );
+    });
+    std::thread::sleep(Duration::from_millis(40));
+    let pending = publish_len + 12;
+    let r = REMAINDERS[c.remainder as usize % REMAINDERS.len()];
+    let r = if r >= pending { 12 } else { r };
+    wire.grant(pending - r);
+    // the client writes what it may and meets a would-block with `r` bytes left
+    wire.wait_until(Duration::from_secs(3), |st| st.held && st.out.len() >= base + pending - r);
+    std::thread::sleep(Duration::from_millis(20));
+    let at_hold = wire.out_len() - base;
+    wire.set_budget(None);
+    wire.grant(0);
+    wire.wait_until(Duration::from_secs(6), |st| st.dropped);
+    let close = timed(CALL_TIMEOUT, "avh-c08-rem-close", move || conn.close());
+    let call_after = ch.qos(0, 0, false);
+    drop(ch);
+    let io = wire.io_thread();
+    let _ = sess.broker.stop();
+    if let Some(t) = io {
+        let p = take_panics(t);
+        if !p.is_empty() {
+            return Outcome::fail("io-thread-panic", format!("{} at {}", p[0].message, p[0].location));
+        }
+    }
+    let ctx = format!("{:?}: {} bytes queued when the server closed (+12 for CloseOk), transport accepted all but {} and reported would-block ({} written at that point)", c, publish_len, r, at_hold);
+    match close {
+        Some(Err(Error::ServerClosedConnection { code: c2, message })) if c2 == code && message == text => {}
+        Some(other) => return Outcome::fail("server-close-result", format!("Connection::close returned {:?}\n{}", other, ctx)),
+        None => return Outcome::hang("close-hang", ctx),
+    }
+    match call_after {
+        Err(Error::ServerClosedConnection { code: c2, .. }) if c2 == code => {}
+        other => return Outcome::fail("channel-first-error", format!("call after the close returned {:?}\n{}", other, ctx)),
+    }
+    let out = wire.out_snapshot();
+    let d = crate::codec::decode_stream(&out);
+    if d.error.is_some() || d.trailing > 0 {
+        return Outcome::fail("outbound-stream-not-whole-frames", format!("{:?}, {} trailing bytes\n{}", d.error, d.trailing, ctx));
+    }
+    let written = out.len() - base;
+    if written != pending {
+        return Outcome::fail("queued-output-not-flushed-before-the-end", format!("{} of {} queued bytes were written\n{}", written, pending, ctx));
+    }
+    if !matches!(d.frames.last(), Some((_, AMQPFrame::Method(0, AMQPClass::Connection(Conn::CloseOk(_)))))) {
+        return Outcome::fail("close-ok-not-last-frame", format!("last frame {:?}\n{}", d.frames.last().map(|(_, f)| brief(f)), ctx));
+    }
+    let got: Vec<u8> = d.frames.iter().filter_map(|(_, f)| if let AMQPFrame::Body(1, b) = f { Some(b.clone()) } else { None }).flatten().collect();
+    if got != body {
+        return Outcome::fail("queued-message-damaged", format!("{} body bytes on the wire, {} published\n{}", got.len(), body.len(), ctx));
+    }
+    let achieved = pending - at_hold == r;
+    Outcome::pass(achieved).label(if achieved { format!("would-block-with-{}-bytes-left", r) } else { "aimed-remainder-not-achieved".to_string() })
+}
+
+fn rstrat(_t: Tier) -> BoxedStrategy<RCase> {
+    (any::<u32>(), any::<u8>(), any::<u16>(), "[a-zA-Z -]{0,16}", any::<u64>())
+        .prop_map(|(body_len, remainder, code, text, salt)| RCase {
+            body_len,
+            remainder,
+            code,
+            text,
+            salt,
+        })
+        .boxed()
+}
+
 pub fn parts() -> Vec<Box<dyn PartDyn>> {
     vec![Box::new(Part::<Case> {
         name: "e2e",
@@ -589,5 +750,18 @@ pub fn parts() -> Vec<Box<dyn PartDyn>> {
         confirm_runs: 3,
             fuzz: None,
             watchdog_s: 60,
+    }),
+    Box::new(Part::<RCase> {
+        name: "remainder",
+        rule: "one channel, the transport accepting nothing, one publish of 70 000-470 000 bytes queued, then the server closes (arbitrary code and text); the transport then accepts everything queued (the publish and CloseOk, a byte count the harness computes from the frames) except a remainder taken from {1, 11, 12, 13, 255, 256, 4096, 32768, 65535, 65536, 65537, 131072, 196608, 262144}, reports would-block, and is released a moment later; oracle: every queued byte is written, the message is intact, CloseOk is the last frame, Connection::close and the channel's next call carry the server's code and text; non-trivial = the would-block really left the aimed remainder (measured); distinct by case hash",
+        cases: |t| t.pick(150, 3000),
+        threads: 16,
+        strategy: rstrat,
+        exec: exec_remainder,
+        enumerate: None,
+        shrink_budget: 30,
+        confirm_runs: 2,
+        fuzz: None,
+        watchdog_s: 60,
     })]
 }
